@@ -11,6 +11,7 @@ NOTES = {
     ("C02-j", "C02"): "not detected by C02 (needs the object shared with an expression that gets simplified: C10 detects it)",
     ("C04-i", "C04"): "not detected by C04 (needs a LocatedDifferential kept alive across another reverse pass: C09 detects it)",
     ("C18-f", "C18"): "not detected (needs NaN coordinates: outside every claim, DESIGN.md 8)",
+    ("C13-o", "C13"): "not detected by C13 (names ending in a newline cannot be built on the unchanged tree; the name lemma of C14 and C16 detects it)",
 }
 row = re.compile(r"^\| (\S+) \| (\S*) \| (C\d\d) quick \| ([^|]+) \| (\S+) \|")
 
@@ -27,20 +28,21 @@ def rows(path):
 old = rows(sys.argv[1])
 fresh = {}
 for p in sys.argv[2:]:
+    p, _, at = p.partition("@")            # <table>@<framework commit the run was made at>
     for (sid, prop, chk, res, n) in rows(p):
-        fresh[(sid, chk)] = (prop, res, n)
+        fresh[(sid, chk)] = (prop, res, n, at or "308c5c1")
 table, seen = [], set()
 for (sid, prop, chk, res, n) in old:
     key = (sid, chk)
     seen.add(key)
     if key in fresh:
-        prop2, res, n = fresh[key]
-        table.append((sid, prop or prop2, chk, res, n, "308c5c1"))
+        prop2, res, n, at = fresh[key]
+        table.append((sid, prop or prop2, chk, res, n, at))
     else:
         table.append((sid, prop, chk, res, n, "cc6ba54"))
-for (sid, chk), (prop, res, n) in fresh.items():
+for (sid, chk), (prop, res, n, at) in fresh.items():
     if (sid, chk) not in seen:
-        table.append((sid, prop, chk, res, n, "308c5c1"))
+        table.append((sid, prop, chk, res, n, at))
 
 
 def order(r):
@@ -56,8 +58,9 @@ own = [r for r in table if r[2] == r[1] or not re.match(r"C\d\d-", r[0])]
 print("# Seeded changes x quick checks (bin/seed_matrix_all.sh; scratch worktrees, never /repo)\n")
 print("Every row: the change applied to a scratch worktree, the quick check of the targeted property (and of related properties listed in the seed's "
       "meta.json) run against it. Last column: the framework commit the row was last run at (a complete re-run takes about four hours since the "
-      "quick suite grew to 11 minutes; after rounds 6 and 7 every change of rounds 6-7, every change of C02, C07, C09, C11-C17, the reverted fixes, "
-      "E-a and every other change of the remaining properties were re-run against the check of their own property: all verdicts unchanged).\n")
+      "quick suite grew to 12 minutes; after rounds 6-8 every change of rounds 6-8 was run completely, and every change of C02, C07, C09, C11-C17, the "
+      "reverted fixes, E-a and every other change of the remaining properties were re-run against the check of their own property: all verdicts unchanged; "
+      "rows marked cc6ba54 were not re-run).\n")
 print("| seeded change | targets | check | result | VIOLATION lines | run at |")
 print("|---|---|---|---|---|---|")
 for (sid, prop, chk, res, n, at) in table:
@@ -65,4 +68,4 @@ for (sid, prop, chk, res, n, at) in table:
         res = NOTES.get((sid, chk), "not detected by this check (another check in this table detects it)")
     print(f"| {sid} | {prop} | {chk} quick | {res} | {n} | {at} |")
 print(f"\n(change, check) combinations detected: {det} of {len(table)};  changes detected by at least one check: {by_any} of {len(changes)}")
-print("\nbenign-1 and benign-2 (behaviour-preserving refactorings): all 18 quick checks exit 0 with no VIOLATION line (bin/benign_all.sh, re-run after round 6; DESIGN.md 13).")
+print("\nbenign-1 and benign-2 (behaviour-preserving refactorings): all 18 quick checks exit 0 with no VIOLATION line (bin/benign_all.sh, re-run after round 6; C01, C08, C11, C13 again after round 8; seeded/runs/benign.md; DESIGN.md 13).")
